@@ -52,7 +52,8 @@ func (c *Clock) spec_NowNanoCached() (r int64) {
 // deadline = min(now + ttl, MaxInt64) for the clock reading `now` taken by this call
 func (c *Clock) spec_ExpireNano(ttl time.Duration) (r int64) {
 	ensures("deadline", mathint(r) == sp_clamp(mathint(Gh_now())+mathint(ttl)))
-	ensures("not_before_now", imp(ttl > 0, r >= Gh_now()))
+	ensures("not_before_now", imp(ttl > 0, r >= Gh_now() && r >= 1))
+	ensures("now_nonneg", Gh_now() >= 0)
 	ensures("clock_read", Gh_now() >= old(Gh_now()))
 	return
 }
